@@ -173,10 +173,10 @@ PROPS["C19"] = {
 
 PROPS["C12"] = {
     "level": "proof", "theorems": _GEN["C12"],
-    "theorem_kinds": {"C12_inverse_law_finite_universe": "finite (kernel VM enumeration: 10^6 programs of length 6 over 10 actions + 138^3 programs of length 3 over 138 actions, all prefixes)", "C12_undo_redo_keep_other_origins_insertions": "unbounded (invariant over all programs incl. other origins)", "C12_values_and_deletion_flags_are_never_altered": "unbounded"},
+    "theorem_kinds": {"C12_inverse_law": "unbounded (abstract lineage model + run invariant: the mirror lists are the renders of the iterated stack-entry transformations)", "C12_inverse_law_finite_universe": "finite (kernel VM enumeration: 10^6 programs of length 6 over 10 actions + 138^3 programs of length 3 over 138 actions, all prefixes)", "C12_undo_redo_keep_other_origins_insertions": "unbounded (invariant over all programs incl. other origins)", "C12_values_and_deletion_flags_are_never_altered": "unbounded"},
     "rule": "three streams per case index, every case in a child process. flat: random programs over the root array and the root map (capture steps of 1-3 transactions under a controlled clock, transactions of another origin, undo, redo; GC on/off; tracked origin none or explicit) run on the implementation and on the extracted Coq model: visible content, both stack depths and the call's return value compared after EVERY action. inverse: scope = random non-empty subset of the four roots incl. nested types, formatting, XML; other origins (second local origin, remote peer) edit only outside the scope; the harness mirrors both stacks with the scoped content after each captured step (the oracle of UndoSpec.v) and requires every undo / redo call to land exactly on the mirrored content, passing over only steps that changed nothing visible. interference: other origins edit the scope too; undo / redo never changes a root outside the scope, deletes only tracked contributions or descendants of a container it deletes, leaves other origins' insertions visible unless a container above them went away; both replicas converge after exchanging everything. Non-trivial = a case with at least one undo call",
     "trusted_base": ["coq/Crdt/Undo.v is a hand transcription of UndoManager::handle_after_transaction / pop / try_process, ItemPtr::redo and Store::follow_redone for a flat scope (tied by the per-action correspondence of the flat stream)", "capture grouping is explicit in the model; the harness injects the clock"],
     "modelled_not_verified": ["nested shared types below the scope (ItemPtr::redo's parent re-creation and redone tracing across parents): decided on the implementation only", "text with formatting inside the scope (implementation only)", "GC / keep flags (implementation only)"],
-    "assumptions": ["the unbounded inverse law (Definition inverse_law) is proved for the finite universe named in the theorem only"],
-    "timeout_quick": 1800, "timeout_thorough": 6000, "coq_timeout": 1800,
+    "assumptions": ["the inverse law is proved for the flat model (no nested types); programs start from the empty document"],
+    "coq_timeout": 1800,
 }
